@@ -879,6 +879,8 @@ func (s *IndexedState) findRules(ctx *Context, event Map) (map[string]Map, error
 	}
 	ids := ss.Array()
 	now := NowSecs()
+	// Did this search come across a rule that had expired?
+	purged := false
 
 	for _, id := range ids {
 		rule, ok := s.IdToFact[id]
@@ -890,6 +892,14 @@ func (s *IndexedState) findRules(ctx *Context, event Map) (map[string]Map, error
 		}
 		if expired {
 			Log(ERROR, ctx, "IndexedState.FindRules", "expired", expired, "ruleId", id, "rule", rule)
+			purged = true
+			continue
+		}
+
+		if !ok && purged {
+			// Not lost: the ids come from the index as it was
+			// when we started, and the expired rule we removed
+			// on the way took this one (deleteWith) with it.
 			continue
 		}
 
